@@ -13,6 +13,7 @@ package genesis
 // allocations naming it (duplicates summed), nothing but balance records is written, and a list whose
 // total does not fit 64 bits is rejected.
 //@ func (*DefaultGenesis).InitializeState props C27
+//@   modifies gmap("vis", mu)[]
 //@   requires forall j int :: 0 <= j && j < len(g.CustomAllocation) ==> !isnil(g.CustomAllocation[j])
 //@   requires forall a string :: has(gmap("vis", mu), chain.balKey(balanceHandler, a)) ==> len(gmap("vis", mu)[chain.balKey(balanceHandler, a)]) == 8
 //@   uses balKey_injective
